@@ -17,6 +17,35 @@ func budgetFor(n int) int64 {
 	return int64(4*n + 64)
 }
 
+// the trail: where each guarded read of the last (short) decode started: [offset, error already set]; recorded only by the
+// single-goroutine programs (trailOn is set around one ReadPacket / UnmarshalBinary call)
+var (
+	trailOn bool
+	trail   [][2]int
+)
+
+func startTrail(on bool) {
+	trailOn = on
+	trail = trail[:0]
+}
+
+func takeTrail() [][2]int {
+	t := append([][2]int{}, trail...)
+	trailOn = false
+	return t
+}
+
+func onStepAt(i int, errSet bool) {
+	if trailOn && len(trail) < 400 {
+		e := 0
+		if errSet {
+			e = 1
+		}
+		trail = append(trail, [2]int{i, e})
+	}
+	onStep()
+}
+
 func onStep() {
 	n := atomic.AddInt64(&stepsSeen, 1)
 	if lim := atomic.LoadInt64(&stepLimit); lim > 0 && n > lim {
